@@ -12,7 +12,9 @@ def declare(reg):
         "msg_set": "list[MsgElt]", "keyword": "str", "n": "int", "string": "str", "header": "str", "search_key": "ref:IMAPSearch",
     })
     # ghost view of the sqlite file: g_uid_vv is the *committed* value of user_server.uid_vv (as stored text)
-    reg.classdef("Database", {"g_uid_vv": "str"})
+    # g_c_*: what is durable in the sqlite file; g_p_*: what the open transaction has done so far (A-DB)
+    reg.classdef("Database", {"g_uid_vv": "str", "conn": "ref:Connection"}, path="asimap/db.py")
+    reg.classdef("Connection", {"g_c_ver": "int", "g_c_schema": "int", "g_p_ver": "int", "g_p_schema": "int", "g_in_txn": "bool", "g_has_versions": "bool"})
     reg.classdef("Queue", {"g_items": "list[ref:IMAPClientCommand]"})
     reg.classdef("Event", {"g_set": "bool"})
     reg.classdef("PWUser", {"username": "str", "pw_hash": "str", "maildir": "opaque:Path"}, path="asimap/auth.py")
